@@ -264,6 +264,8 @@ W3 = [(I("http://a/x"), I("http://a/p"), L("1")), (I("http://a/x"), I("http://a/
       (B("b"), I("http://a/q"), L("1")), (I("urn:x"), I("http://a/p"), I("x"))]
 WG = [DEFAULT, I("http://a/g"), I("http://a/g"), I("g")]
 W4 = [(*t, g) for t, g in zip(W3, WG)]
+# every container repeats these bindings (the last one is the namespace of W3's subjects)
+W_BINDINGS = (("b", "http://b#"), ("ex", "http://a/"))
 
 
 def groups(arity: int) -> list[list]:
@@ -306,9 +308,11 @@ def check_write(case: dict) -> list[tuple[str, str]]:
     else:
         gl = groups(arity)
         inputs = [gl[i] for i in case["groups"]]
-        opts = DR.make_options(cls, (8, 2, 0), 250, True, lt, generalized=False, rdf_star=False)
+        opts = DR.make_options(cls, (8, 2, 0), 250, True, lt, generalized=False, rdf_star=False,
+                               ns=bool(case.get("ns")))
     out = io.BytesIO()
     via = case.get("via")
+    binds = W_BINDINGS if case.get("ns") else ()
 
     def shared(ser, containers):
         # one explicit stream object of the given class serves every container in turn
@@ -324,16 +328,18 @@ def check_write(case: dict) -> list[tuple[str, str]]:
         if via:
             shared(ser, [DR.g_sink(g) for g in inputs if g])
         else:
-            ser.grouped_stream_to_file((DR.g_sink(g) for g in inputs), out, options=opts)
+            ser.grouped_stream_to_file((DR.g_sink(g, binds) for g in inputs), out, options=opts)
     else:
         from pyjelly.integrations.rdflib import serialize as ser  # noqa: PLC0415
 
         def mk(g):
             if arity == 3:
-                return DR.r_graph(g)
+                return DR.r_graph(g, binds)
             import rdflib  # noqa: PLC0415
 
             ds = rdflib.Dataset()
+            for pfx, iri in binds:
+                ds.bind(pfx, rdflib.URIRef(iri), override=True, replace=True)
             for st in g:
                 s, p, o, gn = (T.to_rdflib(t) for t in st)
                 ds.add((s, p, o, ds.get_context(gn)))
@@ -383,6 +389,16 @@ def write_shard(job) -> dict:
             fails = [("raised", f"grouped serialisation raised {type(e).__name__}: {e}")]
         for kind, msg in fails:
             acc.violation({"side": "write", "fail": kind, "api": api}, f"{msg} case={case}", case)
+        if len(sym) <= 2 and sum(1 for i in sym if i) >= 2:
+            c2 = {**case, "ns": True}
+            acc.evals += 1
+            try:
+                fails = check_write(c2)
+            except Exception as e:  # noqa: BLE001
+                fails = [("raised", f"with declarations: raised {type(e).__name__}: {e}")]
+            for kind, msg in fails:
+                acc.violation({"side": "write", "fail": kind, "api": api, "ns": True},
+                              f"{msg} case={c2}", c2)
         if len(sym) <= 2 and any(sym):
             for via in (("shared-triple",) if arity == 3 else ("shared-quad", "shared-graph")):
                 c2 = {**case, "via": via}
